@@ -176,10 +176,10 @@ Proof.
     cbn [in_flight log window]; intros Hb; (split; [exact H1|]); (split; [exact H2|exact Hb]).
 Qed.
 
-Lemma inv_reg3 c now : inv_link c -> inv_link (reg3_clear c now).
+Lemma inv_reg3 c now : inv_link c -> inv_link (reg3_core c now).
 Proof.
-  intros (H1 & H2 & H3). unfold inv_link, reg3_clear. cbn [in_flight log window map].
-  split; [reflexivity|]. split; [constructor|exact H3].
+  intros _. unfold inv_link, reg3_core. cbn [in_flight log window map].
+  destruct consts as (_ & _ & _ & _ & _ & K6). rewrite K6, WB_val. split; [reflexivity|]. split; [constructor|lia].
 Qed.
 
 Lemma inv_mark c : inv_link c -> inv_link (mark_for_recovery c).
